@@ -49,7 +49,8 @@ For each change write a small self-contained demonstration program demo.cpp (sin
 if it needs a sanitizer put the exact build command with the -fsanitize flag in the first line of demo.txt) that exits 0 / prints PASS on the unchanged library and exits non-zero
 (assert, wrong result, sanitizer report, hang guarded by a watchdog `alarm()`/timeout → non-zero exit) with the change. Make the demo deterministic if you can (use explicit
 hand-over flags/sleeps to force the interleaving; if probabilistic, loop until it fails within ~20 s). Verify all of it yourself: suite passes with the change; demo fails with the change
-(run it 3 times); demo passes without (`git -C {wt} stash` or `git -C {wt} checkout -- src`, run it 3 times).
+(run it 3 times); demo passes without (`git -C {wt} diff -- src > /tmp/<yours>.diff; git -C {wt} checkout -- src`, run it 3 times, `git -C {wt} apply /tmp/<yours>.diff` to get the change back).
+NEVER use `git stash`: the stash is shared by all worktrees of /repo and other agents work in theirs at the same time.
 
 ## Deliverables (exactly this layout)
 {wt}/out/1/patch.diff   (`git -C {wt} diff -- src > out/1/patch.diff` with ONLY change 1 applied, relative to HEAD)
